@@ -30,6 +30,19 @@ def run(prog, world, sem, rep):
     okord, dord, h2 = swap_order(world, sem, explore(sem, dex, variant_env(prog, dex, "SwapToRewardDenom")))
     rep.ob("C19.f", "conversions precede the rebalancing swap", okord, dord, where(h2.body))
 
+    rep.rule("C19.h", "the update can be triggered by each of its designated callers: on the guards of the hub's UpdateGlobalIndex both the configured updater "
+             "(Config.update_reward_index_addr) and the validators registry (Config.validators_registry_contract, which sends the update while removing a "
+             "validator) are compared with info.sender; a guard that names another cell rejects the registry and rolls the removal back", 1)
+    from ..authz import GuardAnalysis
+    from .C10 import mk_pass, TABLE
+    hex_ = entry(prog, "hub")
+    row = TABLE["hub"]["UpdateGlobalIndex"]
+    seen_p = set()
+    GuardAnalysis(sem, mk_pass(sem, row, seen_p)).unguarded(hex_, variant_env(prog, hex_, "UpdateGlobalIndex"))
+    missing = [str(r) for r in row if r not in seen_p]
+    rep.ob("C19.h", "hub::UpdateGlobalIndex accepts the updater and the validators registry", not missing,
+           "no comparison of info.sender with %s guards the update: that caller is rejected" % missing if missing
+           else "guards compare info.sender with %s" % sorted(map(str, seen_p)), where(hex_), key="C19.h | hub::UpdateGlobalIndex")
     rep.rule("C19.g", "the delivery steps cannot refuse: reward::UpdateGlobalIndex and dispatcher::DispatchRewards have no explicit error exit other than "
              "the rejection of an unauthorised sender (any other refusal reverts the whole hub transaction, withdrawals and re-bond included)", 2)
     for (cn, vn) in (("reward", "UpdateGlobalIndex"), ("dispatcher", "DispatchRewards")):
